@@ -7,8 +7,10 @@ import itertools
 
 from ..astutil import inside
 from ..cfg import CFG, cond_strings
-from ..core import AnalysisError
+from ..core import AnalysisError, walk_own
 from ..defuse import DefUse, Terms, show
+from ..paths import path_variants
+from ..tutil import TTUnknown, callee_of, select_ifexp, simp, tt_eval
 from ..defuse import key as tkey
 
 EXPLANATION = (
@@ -378,6 +380,9 @@ def _row_iterator(ctx, f):
 
 
 def _table_merger(ctx, f):
+    """Merge loop of MergedTabularDataReader.get_row_iterator, read off
+    reconstructed terms (IDX = selected index, ROWS / ITERS / VALS = the
+    three parallel lists, identified by how they are used)."""
     prog = ctx.prog
     du = DefUse(prog, f)
     T = Terms(du, phi_vars=True)
@@ -385,140 +390,198 @@ def _table_merger(ctx, f):
     whiles = [n for n in ast.walk(f.node) if isinstance(n, ast.While)]
     ctx.require(len(whiles) == 1, f"{f.qual}: merge loop not found")
     w = whiles[0]
-    # selection: argmax iff descending
-    ifs = [s for s in w.body if isinstance(s, ast.If)]
-    sel = None
-    for s in ifs:
-        if ast.unparse(s.test) in ("self.descending",
-                                   "not self.descending"):
-            sel = s
-    ctx.require(sel is not None, f"{f.qual}: direction switch not found")
-    pos, neg = (sel.body, sel.orelse) if ast.unparse(
-        sel.test) == "self.descending" else (sel.orelse, sel.body)
-
-    def fn_of(body):
-        if len(body) == 1 and isinstance(body[0], ast.Assign) and isinstance(
-                body[0].value, ast.Call):
-            return ast.unparse(body[0].value.func), ast.unparse(
-                body[0].value.args[0]) if body[0].value.args else "", \
-                ast.unparse(body[0].targets[0])
-        return None, None, None
-
-    fpos, apos, tpos = fn_of(pos)
-    fneg, aneg, tneg = fn_of(neg)
-    ok = (fpos == "np.argmax" and fneg == "np.argmin" and apos == aneg
-          and tpos == tneg)
-    ctx.check(ok, "C14b-argmax-iff-descending", f,
-              "descending merge picks the largest head, ascending the "
-              "smallest",
-              f"descending -> {fpos}({apos}), ascending -> {fneg}({aneg})",
-              node=sel)
-    if not ok:
-        return
-    idx, vals = tpos, apos
-    # yield precedes advance
+    FLAG = ("attr", ("param", "self"), "descending")
     ys = [n for n in ast.walk(w) if isinstance(n, ast.Yield)]
     ctx.require(len(ys) == 1, f"{f.qual}: expected one yield in the loop")
     y = ys[0]
     yt = T.of(y.value)
-    tries = [n for n in ast.walk(w) if isinstance(n, ast.Try)]
-    ctx.require(len(tries) == 1, f"{f.qual}: advance try not found")
-    tr = tries[0]
-    adv = tr.body[0]
-    ok_adv = isinstance(adv, ast.Assign) and isinstance(
-        adv.value, ast.Call) and ast.unparse(adv.value.func) == "next"
-    rows_name = iters_name = None
-    if ok_adv:
-        rows_name = ast.unparse(adv.targets[0].value) if isinstance(
-            adv.targets[0], ast.Subscript) else None
-        ok_adv = (isinstance(adv.targets[0], ast.Subscript)
-                  and ast.unparse(adv.targets[0].slice) == idx
-                  and isinstance(adv.value.args[0], ast.Subscript)
-                  and ast.unparse(adv.value.args[0].slice) == idx)
-        if ok_adv:
-            iters_name = ast.unparse(adv.value.args[0].value)
+    base = yt[1] if yt[0] == "sub" else ("unknown", "")
+    while base[0] in ("store", "mut"):
+        base = base[1]
+    ctx.require(yt[0] == "sub" and base[0] == "var",
+                f"{f.qual}: the merge does not yield an element of a list: "
+                + show(yt, 100))
+    ROWS = base[1]
+    IDX = yt[2]
+
+    def is_list(t, name):
+        return t[0] == "var" and t[1] == name
+
+    # ---- selection: argmax iff descending (per direction)
+    sel = {}
+    for v in path_variants(f.node, within=w):
+        vdu = DefUse(prog, f, fnode=v.fnode)
+        vT = Terms(vdu, phi_vars=True)
+        vw = [n for n in walk_own(v.fnode) if isinstance(n, ast.While)]
+        vy = [n for x in vw for n in ast.walk(x) if isinstance(n, ast.Yield)]
+        ctx.require(len(vy) == 1, f"{f.qual}: yield lost in a variant")
+        it = vT.of(vy[0].value)
+        ctx.require(it[0] == "sub", f"{f.qual}: yield changed in a variant")
+        it = it[2]
+        dirs = []
+        for test, outcome in v.conds:
+            t = vT.of(test)
+            while t[0] == "un" and t[1] == "not":
+                t, outcome = t[2], not outcome
+            if t == FLAG:
+                dirs.append(outcome)
+        for val in (dirs[:1] or [True, False]):
+            c = callee_of(select_ifexp(it, FLAG, val))
+            got = (c[0], c[1][0][:2] if c[1] else None) if c else (
+                show(it, 60), None)
+            ctx.require(sel.get(val, got) == got,
+                        f"{f.qual}: two selections for one direction")
+            sel[val] = got
+    ok = (sel.get(True, (None,))[0] == "numpy.argmax"
+          and sel.get(False, (None,))[0] == "numpy.argmin"
+          and sel[True][1] == sel[False][1] and sel[True][1] is not None
+          and sel[True][1][0] == "var")
+    ctx.check(ok, "C14b-argmax-iff-descending", f,
+              "descending merge picks the largest head, ascending the "
+              "smallest",
+              f"descending -> {sel.get(True)}, ascending -> {sel.get(False)}",
+              node=y)
+    if not ok:
+        return
+    VALS = sel[True][1][1]
+    # ---- stores at IDX inside the loop
+    stores = []
+    for n in ast.walk(w):
+        if isinstance(n, ast.Assign) and len(n.targets) == 1 and isinstance(
+                n.targets[0], ast.Subscript) and isinstance(
+                    n.targets[0].value, ast.Name):
+            stores.append((n, T.of(n.targets[0].value), T.of(
+                n.targets[0].slice), simp(T.of(n.value))))
+    adv = [x for x in stores if is_list(x[1], ROWS)]
+    ITERS = None
+    ok_adv = False
+    new_row = None
+    if len(adv) == 1 and adv[0][2] == IDX:
+        c = callee_of(adv[0][3])
+        if c and c[0] == "builtins.next" and len(c[1]) == 1 and \
+                c[1][0][0] == "sub" and c[1][0][1][0] == "var" and \
+                c[1][0][2] == IDX:
+            ITERS = c[1][0][1][1]
+            new_row = adv[0][3]
+            ok_adv = ITERS not in (ROWS, VALS)
     ctx.check(ok_adv, "C14b-advance-selected-only", f,
               "only the selected reader advances, into the selected slot",
-              f"advance is {ast.unparse(adv)[:100]}", node=tr)
-    ok_y = (yt[0] == "sub" and rows_name is not None
-            and isinstance(y.value, ast.Name))
-    if ok_y:
-        # the yielded row is rows[idx] read before the advance
-        ydefs = du.defs_of(y.value)
-        ok_y = all(d.kind == "assign" and ast.unparse(d.value) ==
-                   f"{rows_name}[{idx}]" for d in ydefs) and bool(ydefs)
-        yn = cfg.node_of(y).id
-        an = cfg.node_of(adv).id
-        ok_y = ok_y and cfg.every_path_passes(
-            cfg.node_of(w).id, an, {yn})
+              "stores into the row list: "
+              + str([ast.unparse(x[0])[:80] for x in adv]),
+              node=adv[0][0] if adv else w)
+    if not ok_adv:
+        return
+    adv_stmt = adv[0][0]
+    # the statement that calls next(): the store itself or a temporary
+    next_stmts = [s for s in ast.walk(w) if isinstance(s, ast.Assign)
+                  and isinstance(s.value, ast.Call)
+                  and ast.unparse(s.value.func) == "next"]
+    ctx.require(len(next_stmts) == 1, f"{f.qual}: expected one next() call")
+    next_stmt = next_stmts[0]
+    tr = cfg.enclosing(next_stmt, (ast.Try,))
+    ctx.require(tr is not None, f"{f.qual}: advance try not found")
+    # ---- yield precedes advance
+    yn = cfg.node_of(cfg.stmt_of(y) if hasattr(cfg, "stmt_of") else y).id
+    ok_y = cfg.every_path_passes(cfg.node_of(w).id,
+                                 cfg.node_of(adv_stmt).id, {yn}) and \
+        cfg.every_path_passes(cfg.node_of(w).id,
+                              cfg.node_of(next_stmt).id, {yn})
     ctx.check(ok_y, "C14b-yield-before-advance", f,
               "the selected row is yielded before its reader advances",
               f"yields {show(yt, 80)}", node=y)
-    # sortedness check: raise when new value violates the declared order
-    raises = [n for n in ast.walk(tr) if isinstance(n, ast.Raise)]
-    table = {}
+    # ---- sortedness check: truth table over direction x (new ? old)
+    upd = [x for x in stores if is_list(x[1], VALS)]
+    NEW = upd[0][3] if len(upd) == 1 else None
+    OLD = ("sub", None, IDX)
+
+    def atoms_for(desc, new, old):
+        def atoms(t):
+            if t == FLAG:
+                return desc
+            if NEW is not None and simp(t) == NEW:
+                return new
+            if t[0] == "sub" and t[1][0] == "var" and t[1][1] == VALS and \
+                    t[2] == IDX:
+                return old
+            raise KeyError(t)
+        return atoms
+
+    raises = [n for n in ast.walk(w) if isinstance(n, ast.Raise)
+              and n.exc is not None and not any(
+                  isinstance(h, ast.ExceptHandler) and any(
+                      x is n for x in ast.walk(h))
+                  for h in ast.walk(w))]
+    rconds = []
     for r in raises:
-        for test, pol in cfg.guards(r):
-            if not (isinstance(test, ast.BoolOp) and isinstance(
-                    test.op, ast.And) and len(test.values) == 2):
-                continue
-            d, cmp_ = test.values
-            if isinstance(cmp_, ast.Compare) and len(cmp_.ops) == 1 and pol:
-                direction = ast.unparse(d)
-                table[direction] = (ast.unparse(cmp_.left),
-                                    type(cmp_.ops[0]).__name__,
-                                    ast.unparse(cmp_.comparators[0]))
-    newv = None
-    for s in tr.body:
-        if isinstance(s, ast.Assign) and isinstance(
-                s.targets[0], ast.Name) and "get_value" in ast.unparse(
-                    s.value):
-            newv = s.targets[0].id
-    old = f"{vals}[{idx}]"
-
-    def violates(entry, want):
-        # want 'Gt': new > old is a violation (descending input)
-        if entry is None or newv is None:
-            return False
-        l, op, r = entry
-        if (l, r) == (newv, old):
-            return op == want
-        if (l, r) == (old, newv):
-            return op == {"Gt": "Lt", "Lt": "Gt"}[want]
-        return False
-
-    ok_s = violates(table.get("self.descending"), "Gt") and violates(
-        table.get("not self.descending"), "Lt")
-    ctx.check(ok_s, "C14b-sortedness-check", f,
+        rconds.append([(simp(T.of(t)), o)
+                       for t, o in cfg.necessary_conditions(r)
+                       if inside(t, w) and t is not w.test])
+    table, bad = [], []
+    ok_s = bool(rconds) and NEW is not None
+    if ok_s:
+        try:
+            for desc in (True, False):
+                for new in (0, 1, 2):
+                    at = atoms_for(desc, new, 1)
+                    rej = any(all(bool(tt_eval(t, at)) == o for t, o in cs)
+                              for cs in rconds)
+                    want = (desc and new > 1) or (not desc and new < 1)
+                    table.append((desc, new, 1, rej))
+                    if rej != want:
+                        bad.append({"descending": desc, "new": new,
+                                    "old": 1, "rejected": rej})
+        except (TTUnknown, KeyError) as e:
+            ok_s = False
+            bad.append(f"cannot evaluate: {str(e)[:80]}")
+    ctx.check(ok_s and not bad, "C14b-sortedness-check", f,
               "an input that is not sorted as declared is rejected (raise "
               "when a new head exceeds the previous one in descending mode, "
-              "falls below it in ascending mode)",
-              f"sortedness guards found: {table}", node=tr)
-    # the stored value is updated after a successful advance
-    upd = [s for s in tr.body if isinstance(s, ast.Assign)
-           and ast.unparse(s.targets[0]) == old]
-    ctx.check(len(upd) == 1 and newv is not None and ast.unparse(
-        upd[0].value) == newv, "C14b-value-updated", f,
-        "the comparison value of the advanced reader is refreshed",
-        f"updates of {old}: {[ast.unparse(u) for u in upd]}", node=tr)
-    # exhaustion deletes the three parallel lists at the same index
+              "falls below it in ascending mode; 6 valuations)",
+              f"sortedness guards deviate: {bad[:3]}", node=tr)
+    # ---- the stored value is the new head's value and is refreshed on
+    # every normal path back to the loop head
+    ok_u = False
+    why = f"stores into {VALS}: {[ast.unparse(x[0])[:80] for x in upd]}"
+    if len(upd) == 1 and upd[0][2] == IDX:
+        c = upd[0][3]
+        gv = c[2] if c[0] in ("callv", "call") else None
+        ok_u = bool(gv) and gv[0] == new_row
+        if ok_u:
+            hs = {cfg.node_of(h.body[0]).id for h in tr.handlers}
+            ok_u = cfg.every_path_passes(
+                cfg.node_of(adv_stmt).id, cfg.node_of(w).id,
+                {cfg.node_of(upd[0][0]).id} | hs)
+            if not ok_u:
+                why = "a path reaches the next iteration without " \
+                      "refreshing the comparison value"
+    ctx.check(ok_u, "C14b-value-updated", f,
+              "the comparison value of the advanced reader is refreshed "
+              "from the new head", why, node=tr)
+    # ---- exhaustion deletes the three parallel lists at the same index
     ok_del = False
     dels = []
     for h in tr.handlers:
         if h.type is not None and "StopIteration" in ast.unparse(h.type):
-            dels = sorted(ast.unparse(t) for s in h.body
-                          if isinstance(s, ast.Delete) for t in s.targets)
-            want = sorted([f"{iters_name}[{idx}]", f"{rows_name}[{idx}]",
-                           f"{vals}[{idx}]"])
-            ok_del = dels == want
+            for s in h.body:
+                if isinstance(s, ast.Delete):
+                    for t in s.targets:
+                        if isinstance(t, ast.Subscript):
+                            dels.append((T.of(t.value)[:2], T.of(t.slice)))
+            ok_del = sorted(d[0][1] for d in dels if d[0][0] == "var") == \
+                sorted([ITERS, ROWS, VALS]) and all(
+                    d[1] == IDX for d in dels) and len(dels) == 3
     ctx.check(ok_del, "C14b-exhaustion-deletes-all", f,
               "an exhausted reader is removed from the iterator, row and "
               "value lists at the same index",
-              f"handler deletes {dels}", node=tr)
-    # loop until no reader is left
-    ok_w = ast.unparse(w.test) in (f"len({iters_name})", f"{iters_name}",
-                                   f"len({iters_name}) > 0",
-                                   f"len({rows_name})", f"len({vals})")
+              f"handler deletes {[d[0] for d in dels]}", node=tr)
+    # ---- loop until no reader is left
+    wt = T.of(w.test)
+    c = callee_of(wt)
+    inner = c[1][0] if c and c[0] == "builtins.len" and c[1] else wt
+    if wt[0] == "cmp" and wt[1] == ">" and wt[3] == ("const", 0):
+        c2 = callee_of(wt[2])
+        inner = c2[1][0] if c2 and c2[0] == "builtins.len" else wt[2]
+    ok_w = inner[0] == "var" and inner[1] in (ITERS, ROWS, VALS)
     ctx.check(ok_w, "C14b-loop-until-exhausted", f,
               "merge loops until no reader is left",
               f"loop condition is '{ast.unparse(w.test)}'", node=w)
